@@ -81,7 +81,8 @@ def _guard_repeated(nodes, under_rep=False):
     if n[0] in ('q', 'cls', 'star'):
         return under_rep
     if n[0] == 'neg':
-        return under_rep
+        # (the alternatives of a negation standing at the start are themselves parsed at the start: a repeated group inside them counts)
+        return under_rep or any(_guard_repeated(a, under_rep) for a in n[1])
     if n[0] == 'grp':
         rep = under_rep or n[1] in '*+'
         return any(_guard_repeated(a, rep) for a in n[2])
@@ -137,6 +138,35 @@ def _nullable(nodes):
 def pat_nullable_segment(mode, ast, fi):
     # only segments that START with a nullable ?( *( @(|..) group: a segment starting with !( carries its own non-empty guard
     return mode == 'gl' and any(it[0] == 'seg' and it[1] and it[1][0][0] == 'grp' and _nullable(it[1]) for it in ast)
+
+
+def nullable_segment_variants(ast):
+    """Footprint of empty-segment-by-nullable-group, second half: a segment pattern that matched the empty string leaves two separators
+    next to each other, and a run of separators counts as one - so the pattern also behaves as if that segment (and one adjacent
+    separator) were not written.  Returns the path ASTs with one, or all, such segments removed."""
+    idx = [i for i, it in enumerate(ast) if it[0] == 'seg' and it[1] and it[1][0][0] == 'grp' and _nullable(it[1])]
+    out = []
+
+    def drop(a, i):
+        a = list(a)
+        if i + 1 < len(a) and a[i + 1][0] == 'sep':
+            del a[i:i + 2]
+        elif i > 0 and a[i - 1][0] == 'sep':
+            del a[i - 1:i + 1]
+        else:
+            del a[i]
+        return a
+    for i in idx:
+        v = drop(ast, i)
+        if v:
+            out.append(tuple(v))
+    if len(idx) > 1:
+        a = list(ast)
+        for i in reversed(idx):
+            a = drop(a, i)
+        if a:
+            out.append(tuple(a))
+    return out
 
 
 def name_matched_through_empty_segment(sym, mode, ast, fi):
